@@ -22,17 +22,18 @@ ALPHA2 = ['H0', 'S0', 'H1', 'CNOT01', 'X1', 'M0', 'M1', 'M01', 'M10']
 ALPHA3 = ['H0', 'CNOT02', 'CNOT12', 'S2', 'M02', 'M1', 'M20']
 
 
-def letter(name, N):
+def letter(name, N, conv=int):
+    """conv: type the qubit indices are handed to the library in (int, numpy.int64)."""
     pc = lib.pc
     if name[0] == 'M':
-        return ('meas', tuple(int(c) for c in name[1:]))
+        return ('meas', tuple(conv(int(c)) for c in name[1:]))
     if name.startswith('CNOT'):
         c, t = int(name[4]), int(name[5])
-        return ('gate', lambda: pc.CNOT(c, t), (c, t), ref.u_cnot(c, t, N))
+        return ('gate', lambda: pc.CNOT(conv(c), conv(t)), (c, t), ref.u_cnot(c, t, N))
     q = int(name[1])
     U1 = {'H': ref.U_H, 'S': ref.U_S, 'X': ref.U_X}[name[0]]
     ctor = {'H': pc.H, 'S': pc.S, 'X': pc.X}[name[0]]
-    return ('gate', lambda: ctor(q), (q,), ref.embed_1q(U1, q, N))
+    return ('gate', lambda: ctor(conv(q)), (q,), ref.embed_1q(U1, q, N))
 
 
 def zq(q, N):
@@ -47,7 +48,7 @@ def build(prog, N, compiled):
     objs = []
     early = compiled == 2
     for name in prog:
-        L = letter(name, N)
+        L = letter(name, N, np.int64 if compiled == 4 else int)     # configuration 4: numpy.int64 qubit indices everywhere
         if L[0] == 'meas':
             if early and objs:
                 # configuration 2: compile() while the circuit is still measurement-free, then go on building
@@ -149,7 +150,7 @@ def n_meas(prog):
 
 def run_program(prog, N, gs0, ps0, r0, compiled, item, viol, counters):
     kind = 'pure' if r0 == 0 else 'mixed'
-    cfg = {0: 'plain', 1: 'compiled', 2: 'compiled-before-measure', 3: 'compiled-after-every-step'}[int(compiled)]
+    cfg = {0: 'plain', 1: 'compiled', 2: 'compiled-before-measure', 3: 'compiled-after-every-step', 4: 'numpy-int64-indices'}[int(compiled)]
     rho0 = stab.rho_of(gs0, ps0, r0)
     nm = n_meas(prog)
 
@@ -484,6 +485,9 @@ def legs(tier):
     out.append(Leg('programs_compile_every_step', fn_programs, eitems, chunk=2, src_states=91, exhaustive=False, supplementary=True,
                    bound='Circuit.compile() called after EVERY take()/measure() (compile -> extend -> compile at every split point, gates merging into already compiled layers before and after measurement layers): '
                          'N=2 all programs of length 2..%d with a measurement on 91 inputs, all of length %d on 13 rotating inputs; N=3 family all programs of length 2..3 on 7 inputs; complete coin tree, backward on pure inputs' % (full_len, sub_len), timeout=6000))
+    nitems = [[2, 2, pi, 4, 0] for pi in range(len(programs(2, 2)))]
+    out.append(Leg('programs_numpy_indices', fn_programs, nitems, chunk=2, src_states=91, exhaustive=False, supplementary=True,
+                   bound='N=2: all programs of length <= 2 with a measurement on 91 inputs, every qubit index (gate constructors, Circuit.measure) handed over as numpy.int64; complete coin tree, backward on pure inputs'))
     l1 = programs(2, 1)
     nblk = (34560 + BLK - 1) // BLK
     out.append(Leg('length1_all_tableaux', fn_programs, [[2, 1, pi, 0, b] for pi in range(len(l1)) for b in range(1, nblk + 1)], chunk=1, src_states=34560,
